@@ -9,10 +9,12 @@ import sys
 import traceback
 
 CHECKS = {
+    "C13": ("harness.checks.relayfam", "C13"),
+    "C05": ("harness.checks.relayfam", "C05"),
     "C01": ("harness.checks.queryfam", "C01"),
     "C02": ("harness.checks.queryfam", "C02"),
     "C12": ("harness.checks.queryfam", "C12"),
-    "C06": ("harness.checks.storefam", "C06"),
+    "C06": [("harness.checks.storefam", "C06"), ("harness.checks.relayfam", "C06")],
     "C08": ("harness.checks.storefam", "C08"),
     "C09": ("harness.checks.storefam", "C09"),
     "C17": ("harness.checks.storefam", "C17"),
@@ -39,18 +41,26 @@ def main(argv=None):
     if args.what not in CHECKS:
         print("unknown check %s" % args.what)
         return 2
-    modname, prop = CHECKS[args.what]
-    mod = importlib.import_module(modname)
+    engines = CHECKS[args.what]
+    if isinstance(engines, tuple):
+        engines = [engines]
     try:
         if args.replay:
-            return mod.replay(prop, args.replay)
+            from . import replay
+
+            return replay.main(args.what, args.replay)
         kw = {}
         if args.backend:
             kw["backends"] = (args.backend,)
         if args.universe:
             kw["only_universe"] = args.universe
-        out = mod.run(prop, args.tier, seed, **kw)
-        return out.finish()
+        outs = []
+        for modname, prop in engines:
+            mod = importlib.import_module(modname)
+            outs.append(mod.run(prop, args.tier, seed, **kw))
+        from .report import merge
+
+        return merge(outs).finish()
     except Exception:
         traceback.print_exc()
         print("MACHINERY-FAILURE check=%s" % args.what)
